@@ -1508,6 +1508,12 @@ func (c *FnCtx) execSelect(st *State, x *ast.SelectStmt) []Outcome {
 				oc := other.(*ast.CommClause)
 				var rx ast.Expr
 				switch cm := oc.Comm.(type) {
+				case *ast.SendStmt:
+					// ... and for every send case a "sendfull" event: the send could not proceed, so the channel's
+					// buffer is full (`onsend sendfull:ELEM(ch, v): assume ...`)
+					if el := chanElem(c.typeOf(cm.Chan)); el != nil && !containsEffectfulCall(c, cm.Chan) && len(c.matchOnSend(el, "sendfull")) > 0 {
+						c.chanEvent(cst, "sendfull", c.evalExpr(cst, cm.Chan), Term{}, cc.Pos())
+					}
 				case *ast.ExprStmt:
 					rx = cm.X
 				case *ast.AssignStmt:
